@@ -704,7 +704,7 @@ Section Facts.
     - intros H. cbn in H. inversion H; subst. cbn. repeat split; auto.
   Qed.
 
-  Definition quiet (s : dstate) : Prop := d_status s = Running /\ cur s = CStopped /\ c_des (d_c s) = CStopped.
+  Definition quiet (s : dstate) : Prop := d_status s = Running /\ cur s = CStopped /\ c_des (d_c s) = CStopped /\ d_pos s = 0.
 
   Lemma check_stops_leave (s : dstate) now :
     dinv s -> d_status s = Running -> c_des (d_c s) = CStopped ->
@@ -753,6 +753,95 @@ Section Facts.
     - apply Hgo; [discriminate|reflexivity].
     - destruct (c_stop (d_c s)) eqn:Hs; try (destruct Hw; congruence); apply Hgo; try discriminate; reflexivity.
     - apply Hgo; [discriminate|reflexivity].
+  Qed.
+
+  (* a stop request and the end of that loop iteration: the two-event form.  The request may carry a DISCONNECT; the only case
+     excluded is the designed wait (the request kept its DISCONNECT, i.e. a connection is established: stop_request_shape) *)
+  Theorem stop_stops_two (s : dstate) now now' d :
+    dinv s -> d_status s = Running -> d_flush s = false -> d_pos s = 0 ->
+    c_stop (handle_op (d_c s) now (OpStop d)) <> SDisc ->
+    let s2 := dstep (dstep s now (DOp (OpStop d))) now' DCheck in
+    quiet s2 /\
+    exists evs, d_log s2 = d_log s ++ evs /\
+                count_stopped evs = (if cstate_eqb (cur s) CStopped then 0 else 1)%nat /\
+                existsb is_attempt_ev evs = false.
+  Proof.
+    intros Hi Hrun Hfl Hpos Hnd.
+    pose proof Hi as (_ & _ & Hr0). destruct (Hr0 Hrun) as [Hc Hn].
+    set (op := OpStop d) in *.
+    destruct (advance_pos_fields s (DOp op)) as (A1 & A2 & A3 & A4).
+    set (s0 := advance_pos E U D thr s (DOp op)) in *.
+    set (s1 := upd_c E s0 (handle_op (d_c s0) now op) []).
+    assert (B1 : d_c s1 = handle_op (d_c s) now op) by (unfold s1; cbn; rewrite A1; reflexivity).
+    assert (Hdes : c_des (d_c s1) = CStopped) by (rewrite B1; reflexivity).
+    assert (Hcur1 : cur s1 = cur s) by (unfold cur; rewrite B1; apply handle_op_cur).
+    assert (Hlog1 : d_log s1 = d_log s) by (unfold s1; cbn; rewrite A2; apply app_nil_r).
+    assert (Hrun1 : d_status s1 = Running) by (unfold s1; cbn; congruence).
+    assert (Hfl1 : d_flush s1 = false) by (unfold s1; cbn; congruence).
+    assert (Hpos1 : d_pos s1 <= 1) by (unfold s1, s0, advance_pos; destruct thr; cbn; lia).
+    assert (Hi1 : dinv s1).
+    { apply dinv_running; auto.
+      - rewrite Hlog1, B1. apply cinv_handle_op. exact Hc.
+      - rewrite Hcur1. exact Hn. }
+    assert (Hw1 : cur s1 <> CConnected \/ c_stop (d_c s1) <> SDisc) by (right; rewrite B1; exact Hnd).
+    (* the first event *)
+    assert (Hstep1 : dstep s now (DOp op) = after_event s1 now).
+    { unfold Driver.dstep. rewrite Hrun. unfold in_order. rewrite Hpos. cbn [phase N.leb]. rewrite orb_true_r. cbn [negb].
+      fold s0. assert (Hc0 : cur s0 = cur s) by (unfold cur; rewrite A1; reflexivity).
+      unfold Driver.do_op. fold s1.
+      destruct (cur s0) eqn:Hcs; try reflexivity.
+      - unfold Driver.step_connected. rewrite A4, Hfl. reflexivity.
+      - exfalso. unfold cur in *. congruence. }
+    (* a check event on a running state outside Shutdown with no flush pending is a check *)
+    assert (Hck : forall x : dstate, d_status x = Running -> d_pos x <= 6 -> (cur x = CConnected -> d_flush x = false) ->
+                  cur x <> CShutdown ->
+                  dstep x now' DCheck = check (advance_pos E U D thr x DCheck) now').
+    { intros x Hx Hp Hf Hns. unfold Driver.dstep. rewrite Hx. unfold in_order. cbn [phase].
+      assert (Hle : (d_pos x <=? 6) = true) by (apply N.leb_le; exact Hp). rewrite Hle, orb_true_r. cbn [negb].
+      destruct (advance_pos_fields x DCheck) as (X1 & X2 & X3 & X4).
+      set (x0 := advance_pos E U D thr x DCheck) in *.
+      assert (Hcx : cur x0 = cur x) by (unfold cur; rewrite X1; reflexivity).
+      destruct (cur x0) eqn:Hcx0; try reflexivity.
+      - unfold Driver.step_connected. rewrite X4, Hf by congruence. reflexivity.
+      - exfalso. congruence. }
+    (* the check on s1 (tokio: right after the request) or on s1 at the end of the iteration (threaded) *)
+    destruct (check_stops s1 now Hi1 Hrun1 Hdes Hw1) as (Q1 & I1 & evs1 & L1 & C1 & T1).
+    destruct (advance_pos_fields s1 DCheck) as (Y1 & Y2 & Y3 & Y4).
+    set (s1' := advance_pos E U D thr s1 DCheck) in *.
+    assert (Hi1' : dinv s1') by (eapply dinv_ext; [| | |exact Hi1]; auto).
+    assert (Hw1' : cur s1' <> CConnected \/ c_stop (d_c s1') <> SDisc) by (unfold cur; rewrite Y1; exact Hw1).
+    assert (Hdes' : c_des (d_c s1') = CStopped) by (rewrite Y1; exact Hdes).
+    assert (Hrun1' : d_status s1' = Running) by congruence.
+    destruct (check_stops s1' now' Hi1' Hrun1' Hdes' Hw1') as (Q2 & I2 & evs2 & L2 & C2 & T2).
+    (* the check after the client already stopped (tokio's second event) *)
+    set (t1 := check s1 now) in *.
+    destruct Q1 as (R1 & R2 & R3 & R4).
+    destruct (advance_pos_fields t1 DCheck) as (Z1 & Z2 & Z3 & Z4).
+    set (t1' := advance_pos E U D thr t1 DCheck) in *.
+    assert (Hit : dinv t1') by (eapply dinv_ext; [| | |exact I1]; auto).
+    assert (Hwt : cur t1' <> CConnected \/ c_stop (d_c t1') <> SDisc) by (left; unfold cur; rewrite Z1; unfold cur in R2; congruence).
+    assert (Hdt : c_des (d_c t1') = CStopped) by (rewrite Z1; exact R3).
+    assert (Hrt : d_status t1' = Running) by congruence.
+    destruct (check_stops t1' now' Hit Hrt Hdt Hwt) as (Q3 & I3 & evs3 & L3 & C3 & T3).
+    assert (Hcur_t : cstate_eqb (cur t1') CStopped = true) by (apply cstate_eqb_eq; unfold cur; rewrite Z1; exact R2).
+    rewrite Hcur_t in C3.
+    assert (Hk1 : dstep s1 now' DCheck = check s1' now').
+    { apply Hck; auto; try lia. unfold cur. rewrite B1, handle_op_cur. exact Hn. }
+    assert (Hk2 : dstep t1 now' DCheck = check t1' now').
+    { apply Hck; auto; try lia; unfold cur in *; congruence. }
+    rewrite Hstep1. unfold Driver.after_event.
+    unfold cur in Hcur1. 
+    assert (Hc1' : cstate_eqb (cur s1') CStopped = cstate_eqb (cur s) CStopped) by (unfold cur; rewrite Y1, B1, handle_op_cur; reflexivity).
+    assert (Hc1 : cstate_eqb (cur s1) CStopped = cstate_eqb (cur s) CStopped) by (unfold cur; rewrite B1, handle_op_cur; reflexivity).
+    rewrite Hc1' in C2. rewrite Hc1 in C1.
+    destruct thr.
+    - (* threaded *)
+      rewrite Hk1. split; [exact Q2|]. exists evs2. rewrite L2, Y2, Hlog1. auto.
+    - (* tokio *)
+      fold t1. rewrite Hk2. split; [exact Q3|]. exists (evs1 ++ evs3).
+      rewrite L3, Z2, L1, Hlog1, app_assoc. split; [reflexivity|].
+      unfold count_stopped in *. rewrite filter_app, app_length, existsb_app, T1, T3, C1, C3, Nat.add_0_r.
+      split; reflexivity.
   Qed.
 
   (* restartable: in Stopped with desired Connected (a start request was handled) the next check starts an attempt *)
@@ -897,7 +986,7 @@ Section Reach.
                 existsb is_attempt_ev evs = false.
   Proof.
     intros s Hrun Hd Hw s'. destruct facts as (H1 & H2 & H3 & H4 & H5 & H6 & H7 & H8).
-    destruct (check_stops E e_tag e_opened e_closed H4 H5 thr s now (reach_dinv h) Hrun Hd Hw) as ((Q1 & Q2 & Q3) & _ & X).
+    destruct (check_stops E e_tag e_opened e_closed H4 H5 thr s now (reach_dinv h) Hrun Hd Hw) as ((Q1 & Q2 & Q3 & _) & _ & X).
     repeat split; auto.
   Qed.
 
@@ -910,6 +999,24 @@ Section Reach.
     intros s Hrun c' Hs. destruct facts as (H1 & H2 & H3 & H4 & H5 & H6 & H7 & H8).
     destruct (reach_dinv h) as (_ & _ & Hr). destruct (Hr Hrun) as [Hc _].
     exact (stop_request_shape E U D e_tag e_user e_disc e_reset H1 H2 H3 (d_c s) (d_log s) now d Hc Hs).
+  Qed.
+
+  Theorem stop_stops_two_reach h now now' d :
+    let s := reach h in
+    d_status s = Running -> d_flush s = false -> d_pos s = 0 ->
+    c_stop (handle_op E U D e_tag e_user e_disc e_reset (d_c s) now (OpStop d)) <> SDisc ->
+    let s2 := dstep E U D e_tag e_user e_disc e_reset e_opened e_closed e_data e_wc e_service e_nst thr
+                (dstep E U D e_tag e_user e_disc e_reset e_opened e_closed e_data e_wc e_service e_nst thr s now (DOp (OpStop d)))
+                now' DCheck in
+    d_status s2 = Running /\ cur s2 = CStopped /\ c_des (d_c s2) = CStopped /\
+    exists evs, d_log s2 = d_log s ++ evs /\
+                count_stopped evs = (if cstate_eqb (cur s) CStopped then 0 else 1)%nat /\
+                existsb is_attempt_ev evs = false.
+  Proof.
+    intros s Hrun Hfl Hpos Hnd s2. destruct facts as (H1 & H2 & H3 & H4 & H5 & H6 & H7 & H8).
+    destruct (stop_stops_two E U D e_tag e_user e_disc e_reset e_opened e_closed e_data e_wc e_service e_nst
+                H1 H2 H3 H4 H5 H6 H7 H8 thr s now now' d (reach_dinv h) Hrun Hfl Hpos Hnd) as ((Q1 & Q2 & Q3 & _) & X).
+    repeat split; auto.
   Qed.
 
   Theorem restartable_reach h now :
